@@ -41,6 +41,12 @@ func gitOptions() ggen.Options {
 func genBulkHistory(t *rapid.T) ggen.History {
 	dirs := []string{"src", "src/core", "docs", "lib"}
 	n := rapid.IntRange(9, 16).Draw(t, "nBulkFiles")
+	maxTouched := 12
+	if rapid.IntRange(0, 3).Draw(t, "bigImport") == 3 {
+		// more files than the default table size of `coca git` (20), in part more than 32
+		n = rapid.IntRange(21, 40).Draw(t, "nBigImportFiles")
+		maxTouched = 30
+	}
 	var paths []string
 	lines := map[string]int{}
 	for i := 0; i < n; i++ {
@@ -48,12 +54,28 @@ func genBulkHistory(t *rapid.T) ggen.History {
 		paths = append(paths, p)
 	}
 	authors := []string{"Ann Lee", "Bob 2", "R2D2", "Ann"}[:rapid.IntRange(2, 4).Draw(t, "nBulkAuthors")]
+	minCommits, maxCommits := 1, 7
+	many, turn := false, 0
+	if rapid.IntRange(0, 3).Draw(t, "manyAuthors") >= 2 {
+		many = true
+		// a team of 9-20: the author map leaves the one-bucket regime; near-twin names
+		pool := []string{"Ann Lee", "Bob 2", "R2D2", "Ann", "Ann Lee 2", "ann lee", "Bo", "Bob", "Cy 3", "Dev 01", "Dev 02", "Dev 10", "Eve", "Eve Z", "Finn", "Gus", "Hal 9", "Ivy", "Jo", "Kai"}
+		authors = pool[:rapid.IntRange(9, len(pool)).Draw(t, "nManyAuthors")]
+		minCommits, maxCommits = 9, 24
+	}
 	subjects := [][2]string{{"fix: update files", "fix"}, {"feat: add tests", "feat"}, {"docs(core): readme", "docs"}, {"cleanup and bump", ""},
 		{"refactor: move files", "refactor"}, {"chore: bump", "chore"}, {"test(api v2): add tests", "test"}}
 	day := 0
 	mk := func(subject [2]string) ggen.Commit {
 		day += rapid.IntRange(0, 1).Draw(t, "bulkDays")
-		return ggen.Commit{Author: rapid.SampledFrom(authors).Draw(t, "bulkAuthor"), Date: fmt.Sprintf("2019-03-%02d", 1+day),
+		author := ""
+		if many && rapid.IntRange(0, 2).Draw(t, "nextAuthorInTurn") > 0 {
+			author = authors[turn%len(authors)] // most commits of a big team go round the team
+			turn++
+		} else {
+			author = rapid.SampledFrom(authors).Draw(t, "bulkAuthor")
+		}
+		return ggen.Commit{Author: author, Date: fmt.Sprintf("2019-03-%02d", 1+day),
 			Clock: "12:00:00", Zone: "+0000", Subject: subject[0], Type: subject[1]}
 	}
 	var h ggen.History
@@ -65,10 +87,10 @@ func genBulkHistory(t *rapid.T) ggen.History {
 	}
 	h.Commits = append(h.Commits, c)
 	live := append([]string(nil), paths...)
-	nc := rapid.IntRange(1, 7).Draw(t, "nBulkCommits")
+	nc := rapid.IntRange(minCommits, maxCommits).Draw(t, "nBulkCommits")
 	for i := 0; i < nc && len(live) > 0; i++ {
 		c := mk(rapid.SampledFrom(subjects).Draw(t, "bulkSubject"))
-		k := rapid.IntRange(1, min(12, len(live))).Draw(t, "bulkTouched")
+		k := rapid.IntRange(1, min(maxTouched, len(live))).Draw(t, "bulkTouched")
 		perm := rapid.Permutation(live).Draw(t, "bulkSubset")
 		kind := rapid.IntRange(0, 5).Draw(t, "bulkKind") // 0-3 modify, 4 move to another directory, 5 delete
 		if kind == 5 {
@@ -301,6 +323,22 @@ func checkGit(c GitCase) pbt.Verdict {
 	if rename {
 		v.Classes = append(v.Classes, "git/has_rename")
 	}
+	authors, entities := map[string]bool{}, map[string]bool{}
+	for _, e := range exp {
+		authors[e.Author] = true
+		for _, ch := range e.Changes {
+			entities[ch.File] = true
+		}
+	}
+	if len(authors) > 8 {
+		v.Classes = append(v.Classes, "git/more_than_eight_authors")
+	}
+	if len(entities) > 20 {
+		v.Classes = append(v.Classes, "git/more_than_twenty_entities")
+	}
+	if len(entities) > 32 {
+		v.Classes = append(v.Classes, "git/more_than_thirty_two_entities")
+	}
 	return v
 }
 
@@ -325,6 +363,12 @@ func genTables(t *rapid.T) TablesCase {
 	nd := rapid.IntRange(2, 12).Draw(t, "nDirs")
 	dirPool := []string{"core", "web", "docs", "cmd", "util", "api", "api.v1", "api.v2", "build", "x", "core2", "zz"}
 	c.Dirs = dirPool[:nd]
+	if rapid.IntRange(0, 4).Draw(t, "manyDirs") == 4 {
+		// 17-40 directories: past 16 and 32 rows
+		for i, n := 0, rapid.IntRange(17, 40).Draw(t, "nManyDirs")-nd; i < n; i++ {
+			c.Dirs = append(c.Dirs, fmt.Sprintf("mod%02d", i))
+		}
+	}
 	nl := rapid.IntRange(1, 3).Draw(t, "nLangs")
 	c.Langs = []string{"Java", "Go", "Markdown"}[:nl]
 	for range c.Dirs {
@@ -340,6 +384,13 @@ func genTables(t *rapid.T) TablesCase {
 	for i := 0; i < nw; i++ {
 		c.Words[wordPool[i]] = rapid.IntRange(1, 3).Draw(t, "wordCount")
 		c.WordOrder = append(c.WordOrder, wordPool[i])
+	}
+	if rapid.IntRange(0, 4).Draw(t, "manyWords") == 4 {
+		for i, n := 0, rapid.IntRange(17, 40).Draw(t, "nManyWords")-nw; i < n; i++ {
+			w := fmt.Sprintf("word%02d", i)
+			c.Words[w] = rapid.IntRange(1, 3).Draw(t, "wordCount")
+			c.WordOrder = append(c.WordOrder, w)
+		}
 	}
 	// Go front-end: 2-4 struct types, each declared before its methods
 	var b strings.Builder
@@ -386,6 +437,17 @@ func genTables(t *rapid.T) TablesCase {
 }
 
 func checkTables(c TablesCase) pbt.Verdict {
+	v := checkTablesReports(c)
+	if len(c.Dirs) > 16 {
+		v.Classes = append(v.Classes, "tables/more_than_sixteen_directories")
+	}
+	if len(c.WordOrder) > 16 {
+		v.Classes = append(v.Classes, "tables/more_than_sixteen_words")
+	}
+	return v
+}
+
+func checkTablesReports(c TablesCase) pbt.Verdict {
 	return repeat("tables", reps(c.Reps), func(rep int) []report {
 		resetAll()
 		// per-directory line-count rows
